@@ -67,3 +67,39 @@ impl AttrInvImpl for AttrTarget {
         a
     }
 }
+
+pub struct Wrapper(pub u8);
+
+/// attributes on parameters written as patterns (not plain identifiers)
+#[entrait(AttrPatternParams)]
+fn attr_pattern_params<D>(
+    deps: &D,
+    #[allow(unused_variables)] (a, b): (u8, u8),
+    #[allow(unused_variables)] _: u8,
+    #[allow(unused_variables)] Wrapper(x): Wrapper,
+    #[allow(unused_variables)] &Wrapper(y): &Wrapper,
+    #[allow(unused_variables)] [p, _]: [u8; 2],
+) -> u8 {
+    a - b - x - y - p
+}
+#[entrait(AttrPatternNoDeps, no_deps)]
+fn attr_pattern_no_deps(#[allow(unused_variables)] (a, b): (u8, u8), #[allow(unused_variables)] _: u8) -> u8 {
+    a - b
+}
+#[entrait(pub AttrPatternMod)]
+pub mod attr_pattern_mod {
+    pub fn in_mod_pattern<D>(deps: &D, #[allow(unused_variables)] (a, b): (u8, u8), #[allow(unused_variables)] _: u8) -> u8 {
+        a - b
+    }
+}
+#[entrait(AttrPatImpl, delegate_by = DelegateAttrPat)]
+pub trait AttrPat {
+    fn one(&self, ab: (u8, u8), c: u8) -> u8;
+}
+pub struct AttrPatTarget;
+#[entrait]
+impl AttrPatImpl for AttrPatTarget {
+    pub fn one<D>(deps: &D, #[allow(unused_variables)] (a, b): (u8, u8), #[allow(unused_variables)] _: u8) -> u8 {
+        a - b
+    }
+}
